@@ -1,5 +1,4 @@
 #!/bin/bash
-# commit my work, leaving out files other builders are still working on
 cd /verif
-git add -A -- . ':!specs/Fftw*' ':!harness/*fftw*' ':!tools/checks/c15.py' 2>/dev/null
+git add -A -- . 2>/dev/null
 git commit -qm "$1" && echo committed
